@@ -1,4 +1,5 @@
 import Vita.C11.Lemmas
+import Vita.C11.BigLemmas
 /-!
   C11 — save followed by load reproduces the object (property theorems).
 
@@ -93,6 +94,58 @@ theorem dist_save_load_save (io : FloatIO F) (law : FloatLaw io) (d d' : Dist F)
   rw [this] at hl
   cases hl; rfl
 
+/-! ### i_mep (any symbol table `tab`, i.e. any symbol set) -/
+theorem imep_load_save (io : FloatIO F) (law : FloatLaw io) (tab : SymTab) (x : IMep F)
+    (hk : x.ok io tab) (r : Str) : IMep.load io tab (x.save io ++ r) = some (x, '\n' :: r) :=
+  IMep.load_save io law tab x hk r
+
+theorem imep_save_load_save (io : FloatIO F) (law : FloatLaw io) (tab : SymTab) (x x' : IMep F)
+    (hk : x.ok io tab) (rest : Str) (hl : IMep.load io tab (x.save io) = some (x', rest)) :
+    x'.save io = x.save io := by
+  have := IMep.load_save io law tab x hk []
+  simp only [List.append_nil] at this
+  rw [this] at hl
+  cases hl; rfl
+
+/-! ### team<i_mep> -/
+theorem team_load_save (io : FloatIO F) (law : FloatLaw io) (tab : SymTab) (t : List (IMep F))
+    (hk : Team.ok io tab t) (r : Str) : Team.load io tab (Team.save io t ++ r) = some (t, '\n' :: r) :=
+  Team.load_save io law tab t hk r
+
+theorem team_save_load_save (io : FloatIO F) (law : FloatLaw io) (tab : SymTab) (t t' : List (IMep F))
+    (hk : Team.ok io tab t) (rest : Str) (hl : Team.load io tab (Team.save io t) = some (t', rest)) :
+    Team.save io t' = Team.save io t := by
+  have := Team.load_save io law tab t hk []
+  simp only [List.append_nil] at this
+  rw [this] at hl
+  cases hl; rfl
+
+/-! ### population<i_mep>: any number of layers, any allowed sizes, partially filled layers -/
+theorem pop_load_save (io : FloatIO F) (law : FloatLaw io) (tab : SymTab) (p : List (Layer F))
+    (hk : Pop.ok io tab p) (r : Str) : Pop.load io tab (Pop.save io p ++ r) = some (p, '\n' :: r) :=
+  Pop.load_save io law tab p hk r
+
+theorem pop_save_load_save (io : FloatIO F) (law : FloatLaw io) (tab : SymTab) (p p' : List (Layer F))
+    (hk : Pop.ok io tab p) (rest : Str) (hl : Pop.load io tab (Pop.save io p) = some (p', rest)) :
+    Pop.save io p' = Pop.save io p := by
+  have := Pop.load_save io law tab p hk []
+  simp only [List.append_nil] at this
+  rw [this] at hl
+  cases hl; rfl
+
+/-! ### summary<i_mep> -/
+theorem summary_load_save (io : FloatIO F) (law : FloatLaw io) (tab : SymTab) (s : Summary F)
+    (hk : s.ok io tab) (r : Str) : Summary.load io tab (s.save io ++ r) = some (s, '\n' :: r) :=
+  Summary.load_save io law tab s hk r
+
+theorem summary_save_load_save (io : FloatIO F) (law : FloatLaw io) (tab : SymTab) (s s' : Summary F)
+    (hk : s.ok io tab) (rest : Str) (hl : Summary.load io tab (s.save io) = some (s', rest)) :
+    s'.save io = s.save io := by
+  have := Summary.load_save io law tab s hk []
+  simp only [List.append_nil] at this
+  rw [this] at hl
+  cases hl; rfl
+
 /-! ### non-vacuity -/
 
 /-- a two-valued toy number type whose texts go through the *same* lexer -/
@@ -134,6 +187,16 @@ example : Matrix.ok .i32 ⟨3, [1, -2, 3, 4, 5, -2147483648]⟩ := by
   simp [Matrix.ok, Matrix.rows, elemOK, U64, I32]
 example : Dist.ok toyIO ⟨3, true, false, true, false, [(false, 1), (true, 2)]⟩ := by
   simp [Dist.ok, KeysSorted, toyIO, U64]
+/-- a two-symbol table: opcode 0 = parametric terminal, opcode 1 = binary function -/
+def toyTab : SymTab := fun op => if op = 0 then some ⟨true, 0⟩ else if op = 1 then some ⟨false, 2⟩ else none
+def toyInd : IMep Bool := ⟨3, 1, [⟨1, none, [1, 1]⟩, ⟨0, some true, []⟩], (0, 0)⟩
+example : IMep.ok toyIO toyTab toyInd := by
+  refine ⟨by decide, by decide, by decide, by decide, ?_, by decide⟩
+  intro g hg
+  simp [toyInd] at hg
+  rcases hg with h | h <;> subst h
+  · exact ⟨by decide, ⟨false, 2⟩, by decide, by decide, by simp, by decide, by decide⟩
+  · exact ⟨by decide, ⟨true, 0⟩, by decide, by decide, by simp [toyIO], by decide, by decide⟩
 /-- and the theorems really compute on such values -/
 example : IGa.load (IGa.save ⟨5, [-7, 12]⟩) = some (⟨5, [-7, 12]⟩, ['\n']) := by decide
 
